@@ -423,6 +423,7 @@ type FuncSpec struct {
 	Pure      bool
 	Inline    bool
 	Trusted   bool // contract assumed, body not verified (only for listed reasons)
+	Logged    bool // calls are recorded in the ghost event log (events/evis/evarg/evres)
 	Residual  bool // interface-method contract used only for dynamic types outside the module
 	Params    []ParamDecl
 	Results   []ParamDecl
@@ -515,7 +516,7 @@ func newContractSet() *ContractSet {
 var clauseKeywords = map[string]bool{
 	"requires": true, "ensures": true, "modifies": true, "loop": true, "invariant": true,
 	"decreases": true, "func": true, "extern": true, "spec": true, "lemma": true, "pure": true,
-	"inline": true, "panics": true, "trusted": true, "induction": true, "use": true, "def": true, "call": true, "apply": true, "apply_head": true, "apply_exit": true, "opaque": true, "embedded": true, "guarded": true, "callback": true, "monitor": true, "check_at_store": true, "assume_invariant": true, "residual": true,
+	"inline": true, "panics": true, "trusted": true, "induction": true, "use": true, "def": true, "call": true, "apply": true, "apply_head": true, "apply_exit": true, "opaque": true, "embedded": true, "guarded": true, "callback": true, "monitor": true, "check_at_store": true, "assume_invariant": true, "residual": true, "logged": true,
 }
 
 // parseContractText parses the body of one or more /*@ ... @*/ blocks (already
@@ -809,6 +810,10 @@ func (cs *ContractSet) parseContractText(text, pkgPath, file string) error {
 		case "residual":
 			if curF != nil {
 				curF.Residual = true
+			}
+		case "logged":
+			if curF != nil {
+				curF.Logged = true
 			}
 		case "panics":
 			if curF != nil {
